@@ -180,6 +180,12 @@ impl Check for Forwarder {
     fn components(&self) -> serde_json::Value {
         serde_json::json!({"real": ["examples/fee-forwarder-permissionless and -permissioned (from source)", "stellar_fee_abstraction::*", "fungible Base fee token", "access_control roles (permissioned)"], "stub": ["Target (records calls, requires the user's auth, scripted trap)", "Wallet"]})
     }
+    fn dup_ok(&self, _s: &Step) -> bool {
+        true
+    }
+    fn reorder_ok(&self) -> bool {
+        true
+    }
     fn generate(&self, rng: &mut Rng, tier: Tier) -> (Cfg, std::vec::Vec<Step>) {
         let cfg = Cfg { permissioned: rng.chance(50), start_ledger: 10 + rng.below(100_000) as u32 };
         let nsteps = if tier == Tier::Quick { 25 + rng.below(35) } else { 25 + rng.below(70) } as usize;
